@@ -15,7 +15,8 @@ RULE = ("mode 'hist': seeded histories of add/filter/list_modules/reopen/clock-j
         "park points every vm_step VM instructions inside selected adds where the scheduler aborts, SIGKILLs, takes crash images, or runs another actor's read/write; "
         "mode 'enum': for one batch (1..4 rows quick, 1..12 thorough; unserialisable trace at a chosen position; cache_size 2 or default) EVERY progress-handler index is "
         "used once each as abort, kill, crash-image, concurrent-reader and concurrent-writer point. non-trivial = at least one committed row was compared with the "
-        "reference model; distinct = distinct plan digests")
+        "reference model; distinct = distinct plan digests. Row alphabet: colliding modules / qualnames (case, `_`, `%`, characters outside the BMP), 3 % module-less "
+        "(NULL) rows; batches of 0..1100 rows")
 REAL = ["monkeytype.db.sqlite.SQLiteStore (make_store/add/filter/list_modules)", "monkeytype.encoding (row encoding)", "sqlite3 + SQLite 3.40 on a real file (tmpfs)",
         "POSIX file locks between real processes", "SIGKILL, RLIMIT_FSIZE"]
 STUBBED = ["sqlite3.connect proxy (adds timeout=0)", "datetime seam (simulated clock with jumps)", "scheduler-driven progress handler on the store's public conn",
